@@ -238,6 +238,30 @@ func checkC36(c *Ctx, r *Report) {
 		if header == nil || len(appends) != 1 {
 			r.unresolved("C36.R2", "filterSegments loop", "range loop with one append not found")
 		} else {
+			// the scan visits every segment: the loop is left only when the list is exhausted (the
+			// header's own exit). A `break` or `return` from the body abandons the segments not yet
+			// looked at — sound only for an order the listing does not have (it is sorted by topic,
+			// partition, base offset, so an out-of-range segment of one partition says nothing
+			// about the next partition)
+			{
+				key := "filterSegments looks at every segment (the loop ends only when the list does)"
+				bad := ""
+				for _, b := range fs.Blocks {
+					if b == header || !blockInLoop(header, b) {
+						continue
+					}
+					for _, sc := range b.Succs {
+						if sc != header && !blockInLoop(header, sc) {
+							bad = "the loop is left from its body at " + blockPos(m, b) + " → " + blockPos(m, sc)
+						}
+					}
+				}
+				if bad == "" {
+					r.ok("C36.R2", key, blockPosFull(m, header), "")
+				} else {
+					r.viol("C36.R2", key, blockPosFull(m, header), bad+": every later segment — including those of other partitions — is dropped unseen")
+				}
+			}
 			nSkip := 0
 			fam := fnFamily(m, fs)
 			inFam := func(f *ssa.Function) bool {
